@@ -653,7 +653,14 @@ class Pupil:
 
 
 def rand_state(rng):
-    return {'Ex': rng.uniform(-1, 1), 'Ey': rng.uniform(-1, 1), 'px': rng.uniform(-math.pi, math.pi),
+    u = rng.random()
+    if u < 0.2:
+        # a component that is exactly zero next to an amplitude that is not 1 (the constructor normalises)
+        a = rng.choice([2.0, 0.5, -3.0, 0.25, 7.5])
+        ex, ey = (a, 0.0) if rng.random() < 0.5 else (0.0, a)
+        return {'Ex': ex, 'Ey': ey, 'px': rng.uniform(-math.pi, math.pi), 'py': rng.uniform(-math.pi, math.pi)}
+    k = rng.choice([1.0, 1.0, 3.0, 0.2])          # amplitudes of any size
+    return {'Ex': k * rng.uniform(-1, 1), 'Ey': k * rng.uniform(-1, 1), 'px': rng.uniform(-math.pi, math.pi),
             'py': rng.uniform(-math.pi, math.pi)}
 
 
